@@ -143,7 +143,7 @@ Definition encode_multi (cats : list Z) (cell : option (list Z)) : list Z :=
 
 (* --------------------------------------------------------------- timestamps *)
 (* a parsed cell: (epoch second, [year; month-1; day-1; weekday; hour; minute; second]) *)
-Definition tcell := (Z * list Z)%type.
+Notation tcell := (Z * list Z)%type (only parsing).
 Record time_stats := { t_year_range : list Z; t_newest : list Z; t_oldest : list Z; t_median : list Z }.
 Definition minus_ones (n : nat) : list Z := repeat (-1)%Z n.
 (* _default_values[YEAR_RANGE / NEWEST_TIME / OLDEST_TIME / MEDIAN_TIME] *)
